@@ -382,3 +382,7 @@ mod tests {
         assert!(!pool.is_complete());
     }
 }
+
+#[cfg(all(test, pendulum_project_ntpd_rs_verif))]
+#[path = "/verif/harness/ntpd/spawn_pool.rs"]
+pub(crate) mod verif_hook;
